@@ -567,7 +567,7 @@ func afterFieldChanRecv(at ssa.Instruction) bool {
 		_, ok = u.X.(*ssa.FieldAddr)
 		return ok
 	}
-	if anyGuard(at.Block(), func(c ssa.Value, pol bool) bool {
+	isCase := func(c ssa.Value, pol bool) bool {
 		b, ok := c.(*ssa.BinOp)
 		if !ok || b.Op != token.EQL || !pol {
 			return false
@@ -586,8 +586,37 @@ func afterFieldChanRecv(at ssa.Instruction) bool {
 		}
 		st := sel.States[k]
 		return st.Dir == types.RecvOnly && fieldChan(st.Chan)
-	}) {
+	}
+	if anyGuard(at.Block(), isCase) {
 		return true
+	}
+	// the case body only sets a flag that is tested afterwards (`finished := false; select { case
+	// <-e.done: finished = true; default: }; if finished { … }`): every edge on which the flag has the
+	// tested value comes out of the receive case
+	for _, g := range core.Guards(at.Block()) {
+		cnd, pol := core.StripNot(g.Cond, g.Polarity)
+		ph, ok := cnd.(*ssa.Phi)
+		if !ok {
+			continue
+		}
+		all, some := true, false
+		for i, e := range ph.Edges {
+			v, isC := core.ConstBool(e)
+			if !isC {
+				all = false
+				break
+			}
+			if v != pol {
+				continue
+			}
+			some = true
+			if !anyGuard(ph.Block().Preds[i], isCase) {
+				all = false
+			}
+		}
+		if all && some {
+			return true
+		}
 	}
 	fn := at.Parent()
 	for _, b := range fn.Blocks {
